@@ -4,6 +4,29 @@
 #include <cstdio>
 #include <cstdlib>
 #include <asmjit/core.h>
+#include <cstring>
+#include <cstdarg>
+#include <string>
+#include <map>
+// inputs extracted from the verifier's counterexample: "path=value" lines in the file named by argv[1]
+static std::map<std::string, long long> g_replay_inputs;
+static void replay_load(int argc, char** argv) {
+  if (argc < 2) return;
+  FILE* f = fopen(argv[1], "r"); if (!f) return;
+  char line[4096];
+  while (fgets(line, sizeof line, f)) {
+    char* eq = strrchr(line, '='); if (!eq) continue;
+    *eq = 0;
+    g_replay_inputs[line] = (long long)strtoull(eq + 1, nullptr, 10);
+    if (eq[1] == '-') g_replay_inputs[line] = strtoll(eq + 1, nullptr, 10);
+  }
+  fclose(f);
+}
+static bool IN_has(const char* fmt, ...) { char k[1024]; va_list ap; va_start(ap, fmt); vsnprintf(k, sizeof k, fmt, ap); va_end(ap); return g_replay_inputs.count(k) != 0; }
+static unsigned long long IN(unsigned long long dflt, const char* fmt, ...) {
+  char k[1024]; va_list ap; va_start(ap, fmt); vsnprintf(k, sizeof k, fmt, ap); va_end(ap);
+  auto it = g_replay_inputs.find(k); return it == g_replay_inputs.end() ? dflt : (unsigned long long)it->second;
+}
 #ifndef REPLAY_NO_ASSERTION_FAILURE
 // the real assertion_failure lives in globals.cpp (not linked here): an ASMJIT_ASSERT that fires on the replayed input is a reproduction
 ASMJIT_BEGIN_SUB_NAMESPACE(DebugUtils)
